@@ -91,6 +91,7 @@ func zzRetryKernel(focus int) {
 	}
 	attempted := map[string]int{}
 	connFailed := map[string]bool{}
+	skipped := map[string]bool{} // the engine declined to contact it (circuit open)
 	attempts := 0
 	lastOK := false
 	okSeen := false         // some attempt was assigned "ok"
@@ -184,7 +185,14 @@ func zzRetryKernel(focus int) {
 					if wrote == 2 {
 						st.TotalBytes = 2
 					}
-					switch gosym.Choice("othererr", 4) {
+					nOther := 4
+					if wrote == 0 {
+						nOther = 5 // an engine may also decline to contact the endpoint at all (open circuit)
+					}
+					switch gosym.Choice("othererr", nOther) {
+					case 4:
+						skipped[ep.Name] = true
+						return fmt.Errorf("circuit breaker open for endpoint %s: %w", ep.Name, ErrEndpointSkipped)
 					case 0:
 						return errors.New("upstream said something odd: boom")
 					case 1: // body ended early (clean close mid-response)
@@ -211,11 +219,11 @@ func zzRetryKernel(focus int) {
 			if runErr != nil && !startedBefore {
 				nonConn := false
 				for _, u := range orig {
-					if attempted[u.Name] > 0 && !connFailed[u.Name] {
+					if attempted[u.Name] > 0 && !connFailed[u.Name] && !skipped[u.Name] {
 						nonConn = true
 					}
 				}
-				gosym.Assert(gosym.Or(allTried, nonConn), "C04: the request fails only when every candidate was tried (or an attempt failed for a non-connection reason)")
+				gosym.Assert(gosym.Or(allTried, nonConn), "C04: the request fails only when every candidate was tried or skipped (or an attempt failed for a non-connection reason)")
 			}
 			for _, e := range orig {
 				marked := false
